@@ -30,6 +30,7 @@ MANIFEST = {
     "note": "A component/short name that is already a valid unreserved path identifier must be unchanged (C09); for others only 'one "
             "path component, valid token' is demanded. Children iteration order is not judged.",
 }
+MANIFEST["text"] += " Output directory spellings are cycled (not drawn) and include a link to a directory elsewhere followed by '..'."
 
 
 def path_component_ok(lang, original, got):
